@@ -2,6 +2,7 @@ import Lean.Data.Json
 import NGF.Model.NginxLex
 import NGF.Model.InjJudge
 import NGF.Model.InjGuards
+import NGF.Model.InjCompose
 import NGF.Model.Proto
 /-
 Driver entry for C04. Tab-separated fields; strings escaped as \\ \t \n \r.
@@ -188,8 +189,45 @@ def judgeLine (ref : IO.Ref St) (line : String) : IO String := do
     | some files => judgeCase ref true files
   | _ => return "bad-op"
 
+def escField (s : String) : String :=
+  String.ofList (s.toList.flatMap (fun c =>
+    if c == '\\' then ['\\', '\\'] else if c == '\n' then ['\\', 'n'] else if c == '\t' then ['\\', 't']
+    else if c == '\r' then ['\\', 'r'] else [c]))
+
+def optField (s : String) : Option (List Char) := if s == "~" then none else some (unescField s).toList
+
 def regexLine (line : String) : String :=
   match line.splitOn "\t" with
+  | ["compose:mainRewrite", typ, repl, path] =>
+    let r := (unescField repl).toList
+    let m := if typ == "ReplaceFullPath" then some (PathMod.full r) else if typ == "ReplacePrefixMatch" then some (PathMod.pfx r) else none
+    match m with
+    | some m => escField (String.ofList (mainRewrite m (unescField path).toList))
+    | none => "bad-op"
+  | ["compose:rewriteFilter", typ, repl, path] =>
+    let r := (unescField repl).toList
+    let m := if typ == "ReplaceFullPath" then some (PathMod.full r) else if typ == "ReplacePrefixMatch" then some (PathMod.pfx r) else none
+    match m with
+    | some m => escField (String.ofList (rewriteFilterMain m (unescField path).toList))
+    | none => "bad-op"
+  | ["compose:redirectBody", scheme, host, port, hasPath, lport] =>
+    match (if port == "~" then some none else port.toNat?.map some), lport.toNat? with
+    | some p, some lp =>
+      escField (String.ofList (redirectBody (optField scheme) (optField host) p (hasPath == "1") lp))
+    | _, _ => "bad-op"
+  | ["repaired:ValidatePath", s] => if validatePathRepaired (unescField s).toList then "1" else "0"
+  | ["repaired:compose:mainRewrite", typ, repl, path] =>
+    let r := (unescField repl).toList
+    let m := if typ == "ReplaceFullPath" then some (PathMod.full r) else if typ == "ReplacePrefixMatch" then some (PathMod.pfx r) else none
+    match m with
+    | some m => escField (String.ofList (mainRewriteRepaired m (unescField path).toList))
+    | none => "bad-op"
+  | ["repaired:compose:rewriteFilter", typ, repl, path] =>
+    let r := (unescField repl).toList
+    let m := if typ == "ReplaceFullPath" then some (PathMod.full r) else if typ == "ReplacePrefixMatch" then some (PathMod.pfx r) else none
+    match m with
+    | some m => escField (String.ofList (mainRewriteRepaired m (unescField path).toList ++ " break".toList))
+    | none => "bad-op"
   | [name, s] =>
     match validators.lookup name with
     | some f => if f (unescField s).toList then "1" else "0"
